@@ -37,4 +37,35 @@ Judge(ev, res) ==
      [] res.out = "solver_error" -> {"solver error " \o res.kind \o " on a bounded model"}
      [] OTHER -> {"the generated program is rejected: " \o res.out}
 
+---------------------------------------------------------------------------
+(* Bounded Real declarations (C03, family R): the declared range cannot be  *)
+(* enumerated, so the judgement keeps the conditions that are exact at the  *)
+(* returned point and uses the grid of halves inside the ranges for the     *)
+(* rest -- every rule is a NECESSARY condition of the property, none can    *)
+(* raise an alarm on a right answer:                                        *)
+(*   a solution: its values are exact rationals inside their ranges (whole  *)
+(*   numbers for integer variables), satisfy every constraint, the reported *)
+(*   objective is the objective there, and no satisfying GRID point is      *)
+(*   strictly better; Infeasible: no grid point satisfies the text.         *)
+GridVals(d) == IF d.kind = "real" THEN {Norm(k, 2) : k \in (2 * (d.lo.n \div d.lo.d))..(2 * (d.hi.n \div d.hi.d))} ELSE DomVals(d)
+GridEnvs(ev) == {e \in [Used(ev) -> UNION {GridVals(DeclOf(ev, nm)) : nm \in Used(ev)}] : \A nm \in Used(ev) : e[nm] \in GridVals(DeclOf(ev, nm))}
+InRange(d, v) == IF d.kind = "real" THEN RLe(Norm(d.lo.n, d.lo.d), v) /\ RLe(v, Norm(d.hi.n, d.hi.d)) ELSE v \in DomVals(d)
+JudgeReal(ev, res) ==
+   LET sat == {env \in GridEnvs(ev) : Sat(ev, env)}
+       If(c, w) == IF c THEN {w} ELSE {}
+   IN
+   CASE res.out = "solution" ->
+          LET pt == PointOf(ev, res) IN
+          IF \E nm \in Used(ev) : ~IsDef(pt[nm]) THEN {}      \* (no exact value crossed: nothing is judged)
+          ELSE If(\E nm \in Used(ev) : ~InRange(DeclOf(ev, nm), pt[nm]), "a returned value is outside its declared range")
+               \cup If(~Sat(ev, pt), "the returned values violate a constraint of the text")
+               \cup If(ev.sense # "sat" /\ res.value.snap /\ Norm(res.value.n, res.value.d) # Eval(ev.obj, pt),
+                       "the reported objective is not the objective of the text at the returned values")
+               \cup If(ev.sense # "sat" /\ \E env \in sat : Better(ev, Eval(ev.obj, env), Eval(ev.obj, pt)),
+                       "a satisfying assignment (on the grid of halves) has a strictly better objective")
+     [] res.out = "solver_error" /\ res.kind = "Infeasible" ->
+          If(sat # {}, "infeasible reported although an assignment (on the grid of halves) satisfies the text")
+     [] res.out = "solver_error" -> {"solver error " \o res.kind \o " on a bounded model"}
+     [] OTHER -> {"the generated program is rejected: " \o res.out}
+
 =============================================================================
